@@ -254,34 +254,100 @@ def _run_check(prog, preset, domain):
     return ip, o
 
 
+def _run_entry(prog, name, check_raises):
+    """abstract execution of System.createPRISM / System.solve with `check` and the PRISM constructor replaced by
+    recording stubs (what they do themselves is R16.x / R16.c / R16.w)"""
+    from ..interp import Native
+    ip = Interp(prog)
+    cls = prog.cls(SYSQ)
+    o = Obj(cls, {'types': Types(), 'kT': Num(ip.declare('kT'))}, 'self')
+    log = []
+
+    def check(ip2, s_, a_, k_, n_):
+        log.append(('check', s_ is o))
+        if check_raises:
+            raise Raised('ValueError', 'not fully specified', ip2.loc(n_))
+        return NONE
+    ip.natives[('System', 'check')] = check
+    stub = Obj('prism-stub', {})
+
+    def prism_new(ip2, cls_, a_, k_, n_):
+        vals = list(a_) + list(k_.values())
+        log.append(('construct', len(vals) == 1 and vals[0] is o, sorted(k_)))
+        return stub
+    ip.natives[('PRISM', '__new__')] = prism_new
+
+    def stub_solve(ip2, s_, a_, k_, n_):
+        log.append(('solve', list(a_), dict(k_)))
+        return Obj('OptimizeResult', {})
+    ip.natives[('prism-stub', 'solve')] = stub_solve
+    ip.declare('g0', 'curve')
+    guess = Arr(N.sym('g0'), 'guess', ip)
+    args, kwargs = ([], {})
+    if name == 'solve':
+        args, kwargs = [guess], {'method': Const('hybr')}
+    e0 = len(ip.events)
+    res = ip.call(ip.find_method(o, name), args, kwargs)
+    return ip, {'res': res, 'log': log, 'stub': stub, 'guess': guess, 'events': ip.events[e0:], 'obj': o}
+
+
 def rule_check_dominates(ctx, rule='R16.d'):
+    """createPRISM and solve: self.check() runs first on every path, a failing check propagates as ValueError before any
+    PRISM object is constructed, the PRISM object is constructed from this System itself, solve forwards its arguments
+    to PRISM.solve and returns the PRISM object, nothing is written to the System (abstract execution with check and the
+    PRISM constructor replaced by recording stubs)"""
     cls = ctx.prog.cls(SYSQ)
     for name in ('createPRISM', 'solve'):
         m = cls.find_method(name)
         construct = '%s.%s' % (SYSQ, name)
-        fl = Flow(m.node)
-        checks = [n for n in ast.walk(m.node) if isinstance(n, ast.Call) and call_name(n) == 'self.check']
-        ctors = [n for n in ast.walk(m.node) if isinstance(n, ast.Call) and call_name(n) in ('PRISM', 'self.createPRISM')]
-        if not ctors:
-            ctx.undecided(rule, construct, 'no PRISM(self) construction found', m.loc())
-            continue
         bad = []
-        for c in ctors:
-            if call_name(c) == 'self.createPRISM':
-                continue
-            if not any(fl.dominates(k, c) and not fl.guards(k) for k in checks):
-                bad.append('PRISM(...) at line %d is not dominated by an unconditional self.check()' % c.lineno)
-            if not (len(c.args) == 1 and isinstance(c.args[0], ast.Name) and c.args[0].id == 'self'):
-                bad.append('PRISM is constructed from %s, not from self' % norm(c))
-        stores = [n for n in ast.walk(m.node) if isinstance(n, (ast.Assign, ast.AugAssign)) and
-                  any(isinstance(x, ast.Attribute) and isinstance(x.ctx, ast.Store) and norm(x).startswith('self.')
-                      for t in (n.targets if isinstance(n, ast.Assign) else [n.target]) for x in ast.walk(t))]
-        if stores:
-            bad.append('%s writes the System (line %d)' % (name, stores[0].lineno))
+        try:
+            # (a) check passes
+            for d, ip, r in explore(lambda preset, name=name: _with_preset(ctx.prog, name, False, preset), keep_raised=True):
+                if ip is None:
+                    bad.append('raises %s on a fully specified system' % r)
+                    continue
+                kinds = [x[0] for x in r['log']]
+                if 'construct' not in kinds:
+                    bad.append('no PRISM object is constructed')
+                    continue
+                ci = kinds.index('construct')
+                if 'check' not in kinds[:ci]:
+                    bad.append('the PRISM object is constructed before / without self.check()')
+                if not r['log'][ci][1]:
+                    bad.append('the PRISM object is not constructed from this System itself')
+                if not all(x[1] for x in r['log'] if x[0] == 'check'):
+                    bad.append('check is called on another object')
+                if r['res'] is not r['stub']:
+                    bad.append('does not return the PRISM object it constructed')
+                if name == 'solve':
+                    sv = [x for x in r['log'] if x[0] == 'solve']
+                    if len(sv) != 1 or kinds.index('solve') < ci:
+                        bad.append('PRISM.solve is not called exactly once after the construction')
+                    elif not (len(sv[0][1]) == 1 and sv[0][1][0] is r['guess'] and set(sv[0][2]) == {'method'}):
+                        bad.append('arguments are not forwarded unchanged to PRISM.solve')
+                for e in r['events']:
+                    if e['kind'] in ('write', 'bind') and (e['target'] or '').startswith('self'):
+                        bad.append('%s writes the System (%s at %s)' % (name, e['target'], e['loc']))
+            # (b) check refuses
+            for d, ip, r in explore(lambda preset, name=name: _with_preset(ctx.prog, name, True, preset), keep_raised=True):
+                if ip is not None:
+                    bad.append('a System whose check() raises ValueError still yields a result')
+                elif r.exc != 'ValueError':
+                    bad.append('a failing check surfaces as %s, not ValueError' % r.exc)
+        except Unsupported as e:
+            ctx.undecided(rule, construct, str(e), m.loc())
+            continue
         if bad:
-            ctx.violation(rule, construct, 'check-first', '; '.join(bad), m.loc())
+            ctx.violation(rule, construct, 'check-first', '; '.join(sorted(set(bad))), m.loc())
         else:
-            ctx.holds(rule, construct, 'self.check() dominates PRISM(self); no store to self', m.loc())
+            ctx.holds(rule, construct, 'check() first on every path; refusal propagates as ValueError before any construction; '
+                      'PRISM built from this System; no store to self', m.loc())
+
+
+def _with_preset(prog, name, check_raises, preset):
+    ip, r = _run_entry(prog, name, check_raises)
+    return ip, r
 
 
 # ---------------------------------------------------------------------------------------------
